@@ -467,6 +467,9 @@ func exec(planJSON []byte, run *core.Run) {
 					return false
 				}
 				sealer = s2
+				for i := range raw { // the disk buffer is reused by the caller
+					raw[i] = 0xa5
+				}
 				run.Fault("disk:migrate-sealer")
 				if len(recs) > len(opened) {
 					run.Probe("migrate-between-seal-and-open")
@@ -483,6 +486,9 @@ func exec(planJSON []byte, run *core.Run) {
 					return false
 				}
 				opener = o2
+				for i := range raw { // the disk buffer is reused by the caller
+					raw[i] = 0xa5
+				}
 				run.Fault("disk:migrate-opener")
 				if len(recs) > len(opened) {
 					run.Probe("migrate-between-seal-and-open")
